@@ -7,6 +7,7 @@ open SteelVerif.C02
 #print axioms inline_then_fold_preserves
 #print axioms tier_transparent
 #print axioms tier_hypothesis_needed
+#print axioms tier_hypothesis_needed_error
 #print axioms inline_history_partial
 #print axioms witness_outside_guard
 #print axioms inline_history_false
